@@ -183,6 +183,20 @@ def rule_r3(facts, rep, rid="C04-R3"):
             bodies.append(cf)
     per_key = [fl for fl in g["variants"][0]["fields"] if fl["ty"].startswith("std::collections::HashMap<liwe::model::Key,")]
     rep.floor(rid, "per-key maps in Graph", len(per_key), 4)
+    # every path through the single-key update re-derives the caches: no `return` before the last cache write
+    names_pk = set(fl["name"] for fl in per_key) | {"index"}
+    writes_pos = [(x.get("s") or [0])[0] for x in fb.walk(fm.body) if x.get("k") == "mcall" and self_field(x.get("recv")) in names_pk
+                  and x["name"] in ("insert", "remove", "extend", "merge", "entry")]
+    last_w = max(writes_pos) if writes_pos else 0
+    early = [r_ for r_ in fb.walk(fm.body, into_closures=False) if r_.get("k") == "ret" and (r_.get("s") or [0])[0] < last_w]
+    key_er = "%s|no-early-return-before-cache-refresh" % fm.def_
+    if early:
+        cfm = ctx(fm)
+        guard = [p_ for p_ in cfm.parents(early[0]) if p_.get("k") in ("if", "match")]
+        rep.violation(rid, key_er, "Graph::from_markdown returns early under `%s`, before the index merge / per-key caches (title, ...) were refreshed: on that path the previous version's "
+                      "cached values survive the update (a fresh build has none)" % (fb.show(guard[0].get("c") or guard[0].get("e"))[:70] if guard else "?"), loc(fm, early[0]))
+    else:
+        rep.ok(rid, key_er, "no return before the last cache write", fm.loc)
     for fl in per_key:
         name = fl["name"]
         inserts, removes = [], []
